@@ -247,7 +247,7 @@ class WorldCheck:
                         hx(b'conf' if relative else os.path.join(scen.root, 'conf').encode()), '1' if dry else '0', '1' if syntax else '0', '1' if stdin else '0',
                         '1' if confok else '0',
                         # the zone `time_format` (file-time date conditions) formats in: TZ of the run, `-` = unset
-                        hx(scen.env_extra.get('TZ', '').encode('latin-1'))])
+                        hx((scen.env_extra.get('TZ') or '').encode('latin-1'))])     # None = the scenario unsets TZ (ce13)
         files = []
         dirs = set()
         for rel, (kind, data, mt) in scen.initial.items():
